@@ -335,13 +335,71 @@ def _run_one(args):
         shutil.rmtree(tmp, ignore_errors=True)
 
 
+SEEDED = os.path.join(os.path.dirname(os.path.dirname(os.path.abspath(__file__))), "seeded")
+
+
+def _run_seed(args):
+    """A confirmed seeded change (independent sub-agent) that this property's check is recorded to catch must still be
+    caught when its patch is applied to a scratch copy of /repo's current source."""
+    prop, sdir, src = args
+    import json
+    import subprocess
+    name = "seeded:" + os.path.basename(sdir)
+    tmp = tempfile.mkdtemp(prefix="eon_selftest_")
+    try:
+        os.makedirs(os.path.join(tmp, "EoN"))
+        for m in MODULES:
+            shutil.copy(os.path.join(src, "EoN", m + ".py"), os.path.join(tmp, "EoN", m + ".py"))
+        r = subprocess.run(["patch", "-p1", "-F3", "-s", "--no-backup-if-mismatch", "-d", tmp, "-i", os.path.join(sdir, "patch.diff")],
+                           capture_output=True, text=True)
+        if r.returncode != 0:
+            return (name, "stale", "patch no longer applies to /repo's current source")
+        from .core import Repo, AnalysisError
+        from .report import Report
+        from . import props as P
+        try:
+            rep = Report(prop, "thorough", 0)
+            P.PROPS[prop](Repo(tmp), rep)
+            fails = rep.failures()
+        except AnalysisError as e:
+            return (name, "ok", "analysis error (counts as not passing): %s" % str(e)[:100])
+        if fails:
+            return (name, "ok", "%s %s :: %s" % (fails[0]["rule"], fails[0]["function"], (fails[0]["detail"] or fails[0]["construct"])[:120]))
+        return (name, "fail", "seeded change is no longer reported by the %s check" % prop)
+    finally:
+        shutil.rmtree(tmp, ignore_errors=True)
+
+
+def _seeds_for(prop):
+    import glob
+    import json
+    out = []
+    for mj in sorted(glob.glob(os.path.join(SEEDED, "*", "meta.json"))):
+        try:
+            m = json.load(open(mj))
+        except Exception:
+            continue
+        if prop in (m.get("caught_by") or {}):
+            out.append(os.path.dirname(mj))
+    return out
+
+
 def run_for_property(prop, repo_root, seed=0, jobs=None):
     todo = [(prop, v, repo_root) for v in V if prop in v[1]]
-    jobs = jobs or min(16, max(1, len(todo)))
+    seeds = [(prop, d, repo_root) for d in _seeds_for(prop)]
+    jobs = jobs or min(16, max(1, len(todo) + len(seeds)))
     out = {"total": len(todo), "ok": 0, "stale": 0, "failed": [], "variants": []}
-    if not todo:
+    if not todo and not seeds:
         return out
     with ProcessPoolExecutor(jobs) as ex:
+        sres = list(ex.map(_run_seed, seeds)) if seeds else []
+        out["seeded_total"] = len(seeds)
+        out["seeded_caught"] = sum(1 for x in sres if x[1] == "ok")
+        out["seeded_stale"] = sum(1 for x in sres if x[1] == "stale")
+        out["seeded"] = [{"seed": n, "status": st, "detail": msg} for n, st, msg in sres]
+        for n, st, msg in sres:
+            if st == "fail":
+                out["failed"].append("%s: %s" % (n, msg))
         for name, status, msg in ex.map(_run_one, todo):
             out["variants"].append({"variant": name, "status": status, "detail": msg})
             if status == "ok":
